@@ -221,6 +221,9 @@ structure Cfg where
       `try` whose `except OSError` does `raise convert_oserror(err, self.pid, self._name)` (true), or
       only the first native call does (false) -/
   winMapsLoopGuarded : Bool
+  /-- `Process._get_ident`: the `WINDOWS` branch asks for `create_time(fast_only=True)` and the Windows
+      `create_time` then re-raises a permission error instead of taking the slower fall-back -/
+  winIdentFastOnly : Bool
 
 def wrapExceptions (cfg : Cfg) (f : Family) (e : Err) (env : Env) : Outcome :=
   runClauses f cfg.win e env (cfg.clauses f)
@@ -608,7 +611,7 @@ def frontDiskTotal (rows : List (List Nat)) : List Nat :=
     Windows passes `fast_only=True`, and then a permission error is re-raised instead of being
     answered from the system-wide process list (`if fast_only: raise`) -/
 def innerIdent (cfg : Cfg) (p : Platform) (call : String) : Inner :=
-  if p == .windows && call == "proc_times" then .escapes else inner cfg p "create_time" call
+  if p == .windows && call == "proc_times" && cfg.winIdentFastOnly then .escapes else inner cfg p "create_time" call
 
 /-- `self._proc.create_time(fast_only=True)` (Windows) / `self.create_time()` (elsewhere) inside
     `Process._get_ident`, when native call `call` raises `e` -/
